@@ -130,6 +130,8 @@ func (e *Engine) VerifyLemma(ax *Axiom) (res *UnitResult) {
 		}
 	}()
 	nameDefs = map[string]*Term{}
+	keyTerms = map[string][]*Term{}
+	closures = map[string]*closureInfo{}
 	fx := e.specOnlyExec(c)
 	fx.prefix = u.Name
 	env := &SpecEnv{fx: fx, pkg: ax.Pkg, vars: map[string]specVal{}, st: fx.entry, where: "lemma " + ax.Name}
